@@ -298,7 +298,7 @@ def r5_3(ctx):
     forced_alts = [
         forced_pat,
         # filter first, then map position by position
-        "known = [uid for uid in uid_msg_set if uid in self._uid_to_idx]\nto_delete = sorted([self.msg_keys[self._uid_to_idx[uid]] for uid in known], reverse=True)\nuids_to_delete = sorted(known, reverse=True)",
+        "known = [uid for uid in uid_msg_set if uid in self._uid_to_idx]\nto_delete = sorted([self.msg_keys[self._uid_to_idx[u]] for u in known], reverse=True)\nuids_to_delete = sorted(known, reverse=True)",
         "to_delete = sorted([self.msg_keys[self._uid_to_idx[uid]] for uid in uid_msg_set if uid in self._uid_to_idx], reverse=True)\nuids_to_delete = sorted([uid for uid in uid_msg_set if uid in self._uid_to_idx], reverse=True)",
     ]
     if any(pm.has(x) for x in forced_alts):
